@@ -337,6 +337,37 @@ func markerPhase(o *common.Opts, pipelines int) (done, cmds int, cmdNames map[st
 	// a connection that has subscribed to a channel keeps sending commands with large array replies while two
 	// publishers publish to that channel: pushes and replies share the socket, and every value on it must still be
 	// either a whole push or a whole reply (a push must never land inside a reply)
+	var quiet *respc.Client
+	var quietSince time.Time
+	defer func() {
+		// a connection that received pushes and then nothing for a while still gets its replies: whatever the
+		// server arranged on the socket for a push (a write deadline, say) must not outlive the push
+		if quiet == nil {
+			return
+		}
+		defer quiet.Close()
+		if srv == nil || srv.Exited() {
+			return
+		}
+		if d := 4*time.Second - time.Since(quietSince); d > 0 {
+			time.Sleep(d)
+		}
+		for i := 0; i < 2; i++ {
+			_ = quiet.Send(respc.Cmd("LLEN", "pushmix:list"))
+			v, err := quiet.RecvTimeout(10 * time.Second)
+			cmds++
+			cmdNames["LLEN(on a subscribed connection, seconds after its last push)"]++
+			if err != nil || v.Kind != ':' {
+				got := v.String()
+				if err != nil {
+					got = err.Error()
+				}
+				divs = append(divs, seqrun.Div{Kind: "framing", Cmd: []string{"SUBSCRIBE pushmix:ch", "(pushes received)", fmt.Sprintf("(%.1f s without traffic)", time.Since(quietSince).Seconds()), "LLEN pushmix:list"}, Want: "one integer reply",
+					Got: got, Detail: "TCP: a subscribed connection that is silent for a few seconds after its last push, then sends a command", Sig: "marker|no reply on a subscribed connection after a quiet spell"})
+				return
+			}
+		}
+	}()
 	if srv != nil && !srv.Exited() {
 		const elems, rounds = 3000, 60
 		sub, err := respc.Dial(srv.Addr, 60*time.Second)
@@ -407,7 +438,13 @@ func markerPhase(o *common.Opts, pipelines int) (done, cmds int, cmdNames map[st
 			}
 			close(stop)
 			pwg.Wait()
-			sub.Close()
+			// the connection stays open and silent: it is asked again at the end of the phase (below)
+			for {
+				if _, err := sub.RecvTimeout(300 * time.Millisecond); err != nil {
+					break
+				}
+			}
+			quiet, quietSince = sub, time.Now()
 			cmds += replies
 			cmdNames["LRANGE(3000 elements, on a subscribed connection, pushes arriving)"] += replies
 			cmdNames["(pushes decoded between those replies)"] += pushes
